@@ -53,12 +53,14 @@ Proof. intros H. unfold diff. apply NoDup_filter. exact H. Qed.
 (* the implementation-shaped step and the documented step denote the same set, for every class and operation *)
 Theorem step_is_documented c fs o x : In x (step c fs o) <-> In x (doc_step c fs o).
 Proof.
-  destruct o as [n kw|name|names ow|names|ch]; simpl.
+  destruct o as [n kw|name|names ow|names|ch| |n kw]; simpl.
   - unfold init. rewrite !union_In, !diff_In, !union_In. simpl. tauto.
   - tauto.
   - destruct ow; tauto.
   - tauto.
   - rewrite !union_In, !diff_In. simpl. tauto.
+  - tauto.
+  - unfold init. rewrite !union_In, !diff_In, !union_In. tauto.
 Qed.
 
 (* after any sequence of operations the tracked set is the documented fold (as sets), and it is duplicate free *)
@@ -68,19 +70,35 @@ Theorem run_is_documented c ops : forall fs fs',
 Proof.
   induction ops as [|o ops IH]; intros fs fs' H x; simpl; [apply H|].
   apply IH. intros y. rewrite step_is_documented.
-  destruct o as [n kw|name|names ow|names|ch]; simpl;
+  destruct o as [n kw|name|names ow|names|ch| |n kw]; simpl;
     rewrite ?union_In, ?diff_In, ?add_In, ?H; try tauto.
   destruct ow; rewrite ?union_In, ?H; tauto.
 Qed.
 
 Theorem step_nodup c fs o : NoDup fs -> NoDup (step c fs o).
 Proof.
-  intros H. destruct o as [n kw|name|names ow|names|ch]; simpl.
+  intros H. destruct o as [n kw|name|names ow|names|ch| |n kw]; simpl.
   - unfold init. apply union_nodup, union_nodup. constructor.
   - apply add_nodup. exact H.
   - apply union_nodup. destruct ow; [constructor|exact H].
   - apply diff_nodup. exact H.
   - apply union_nodup, union_nodup. constructor.
+  - constructor.
+  - unfold init. apply union_nodup, union_nodup. exact H.
+Qed.
+
+(* a subclass overriding __init__: whatever it assigns before delegating to the tracked __init__ stays in the set *)
+Theorem init_keeps_previous c fs n kw x : In x fs -> In x (step c fs (OInit n kw)).
+Proof. intros H. simpl. unfold init. rewrite !union_In. tauto. Qed.
+
+Theorem subclass_constructor_spec c pre post n kw x :
+  In x (fold_left (step c) ((OAlloc :: map OSetAttr pre) ++ OInit n kw :: map OSetAttr post) []) <->
+  In x pre \/ In x post \/ (In x (firstn n (params c) ++ kw) /\ ~ In x (init_vars c)) \/ In x (post_init c).
+Proof.
+  rewrite fold_left_app. cbn [fold_left step].
+  assert (A : forall l fs y, In y (fold_left (step c) (map OSetAttr l) fs) <-> In y fs \/ In y l).
+  { induction l as [|a l IH]; intros fs y; simpl; [tauto|]. rewrite IH, add_In. intuition (subst; auto). }
+  rewrite A. unfold init. rewrite !union_In, diff_In, union_In, A, in_app_iff. simpl. tauto.
 Qed.
 
 (* deserialize: fields_set = keys present in the data (minus InitVars) + default_as_set / init=False fields *)
